@@ -122,10 +122,48 @@ def _sub(expr, env):
     return _Subst(env).visit(copy.deepcopy(expr))
 
 
+_NEG = {'Eq': 'NotEq', 'NotEq': 'Eq', 'Lt': 'GtE', 'GtE': 'Lt', 'Gt': 'LtE', 'LtE': 'Gt'}
+
+
+class _Canon(ast.NodeTransformer):
+    """`a + b` / `b + a` and `a * b` / `b * a` get the same text (IEEE + and * are commutative;
+    nothing is re-associated)"""
+
+    def visit_BinOp(self, node):
+        self.generic_visit(node)
+        if isinstance(node.op, (ast.Add, ast.Mult)):
+            if ast.unparse(node.left) > ast.unparse(node.right):
+                node.left, node.right = node.right, node.left
+        return node
+
+
+def _canon(expr):
+    return ast.fix_missing_locations(_Canon().visit(copy.deepcopy(expr)))
+
+
 def _expr_nf(expr):
+    expr = _canon(expr)
     if isinstance(expr, ast.Compare):
         return cmp_nf(expr)
     return strip_self(expr)
+
+
+def _cond_nf(expr, negate):
+    """condition of a path: a negated comparison is written with the complementary operator, so
+    `if a != 0: X else: Y` and `if a == 0: Y else: X` have the same paths"""
+    expr = _canon(expr)
+    if isinstance(expr, ast.UnaryOp) and isinstance(expr.op, ast.Not):
+        return _cond_nf(expr.operand, not negate)
+    if isinstance(expr, ast.Compare) and len(expr.ops) == 1 and type(expr.ops[0]).__name__ in _NEG:
+        text = cmp_nf(expr)
+        if not negate:
+            return text
+        # cmp_nf yields "<left> <Op> <right>"; operands never contain a bare operator name
+        toks = text.split(' ')
+        idx = max(i for i, t in enumerate(toks) if t in _NEG)
+        toks[idx] = _NEG[toks[idx]]
+        return ' '.join(toks)
+    return ('not ' if negate else '') + strip_self(expr)
 
 
 def sym_paths(func):
@@ -172,10 +210,9 @@ def sym_paths(func):
                 if not body and not orelse:
                     continue
                 test = _sub(st.test, env)
-                c = _expr_nf(test)
                 rest = stmts[idx + 1:]
-                run(body + rest, env, conds + [c], effects)
-                run(orelse + rest, env, conds + ['not ' + c], effects)
+                run(body + rest, env, conds + [_cond_nf(test, False)], effects)
+                run(orelse + rest, env, conds + [_cond_nf(test, True)], effects)
                 return
             effects.append('stmt ' + type(st).__name__ + ' ' + strip_self(st)[:120].replace('\n', ';'))
         finish(env, conds, effects, None)
@@ -189,3 +226,42 @@ def sym_paths(func):
 
     run(func.body, env0, [], [])
     return sorted(paths)
+
+
+class _Rename(ast.NodeTransformer):
+    def __init__(self, mapping):
+        self.mapping = mapping
+
+    def visit_Name(self, node):
+        if node.id in self.mapping:
+            return ast.copy_location(ast.Name(id=self.mapping[node.id], ctx=node.ctx), node)
+        return node
+
+
+def local_names(func):
+    """locals of a function (assigned names, `except .. as` names, parameters other than self) ->
+    canonical names v0, v1, ... in order of first binding in the source"""
+    order = []
+    for a in func.args.args:
+        if a.arg != 'self' and a.arg not in order:
+            order.append(a.arg)
+    for n in ast.walk(func):
+        if isinstance(n, ast.Name) and isinstance(n.ctx, ast.Store) and n.id not in order:
+            order.append(n.id)
+        if isinstance(n, ast.ExceptHandler) and n.name and n.name not in order:
+            order.append(n.name)
+    # ast.walk is breadth-first; sort by position for stability under refactoring of nesting
+    pos = {}
+    for n in ast.walk(func):
+        if isinstance(n, ast.Name) and isinstance(n.ctx, ast.Store):
+            pos.setdefault(n.id, (n.lineno, n.col_offset))
+    params = [a.arg for a in func.args.args if a.arg != 'self']
+    rest = sorted([x for x in order if x not in params], key=lambda x: pos.get(x, (10**9, 0)))
+    return {name: f'v{i}' for i, name in enumerate(params + rest)}
+
+
+def body_nf_renamed(func, body, ordered=True):
+    """body_nf with the function's locals replaced by canonical names"""
+    m = local_names(func)
+    stmts = [_Rename(m).visit(copy.deepcopy(st)) for st in body]
+    return body_nf(stmts, ordered)
